@@ -1,5 +1,5 @@
 (* go/pkg/schema/schema.go PrettyPrint and helpers; the output is the list of code points of the
-   printed text (Lexer.utf8_encode turns it into the bytes idl.Parse reads).
+   printed text (utf8_encode below turns it into the bytes idl.Parse reads).
 
    `fixed` selects prettyPrintFieldType: false = as it was (defect D8: an enum-typed field is
    printed by its Primitive, i.e. "uint64", because the Primitive case comes first; the dictionary
